@@ -268,12 +268,25 @@ type knownEvent struct {
 func (i *interpreter) event(kind, site, msg string) {
 	p := i.path
 	f := Finding{Site: site, Kind: kind, Msg: msg, Decisions: append([]int(nil), p.decisions...), Choices: copyChoices(p.res.Choices)}
-	// model of the current path condition
+	// model of the current path condition (also settles feasibility of lazily
+	// branched paths: an event on an infeasible path is no event)
 	p.sess.Push()
-	if p.sess.Check() == smt.Sat {
+	p.sess.SetTimeout(p.opts.AssertTimeMs)
+	r := p.sess.Check()
+	if r == smt.Sat {
 		f.Inputs = p.model()
 	}
+	p.sess.SetTimeout(p.opts.TimeoutMs)
 	p.sess.Pop()
+	if r == smt.Unsat {
+		p.infeasibleEvent = true
+		return
+	}
+	if r == smt.Unknown && p.lazy {
+		p.res.Unknowns = append(p.res.Unknowns, "event-feasibility:"+site)
+		p.infeasibleEvent = true
+		return
+	}
 	for _, k := range p.knownEvents {
 		if p.opts.KnownOpen[k.id] && strings.Contains(site+" "+msg, k.pattern) {
 			f.KnownID = k.id
